@@ -225,8 +225,13 @@ def iw_cases(draw, tier):
             fr['_wh'] = [w, h]
         frames.append(fr)
     frames[0].pop('_wh')
+    # images written earlier by the same ImageWriter (skool2html uses one writer for a whole disassembly): the judged
+    # image must not depend on them. Each is the first frame of this image with another mask type, cropped or not.
+    warm = []
+    if draw(st.sampled_from([0, 0, 1])):
+        warm = [[draw(st.sampled_from([0, 1, 2])), draw(st.booleans())] for _ in range(draw(st.integers(1, 2)))]
     return {'entry': 'iw', 'opts': _opts(draw), 'colours': _colours(draw), 'pool': pool,
-            'share': draw(st.booleans()), 'frames': frames}
+            'share': draw(st.booleans()), 'frames': frames, 'warm': warm}
 
 
 def _eff(fr):
@@ -523,6 +528,12 @@ def run_iw(case, generic=False):
                         used.append(name)
                         return anym(frame, mask, bit_depth)
                     d2[mk] = wrapper
+    if not generic:
+        for m, full in case.get('warm') or ():
+            f0 = dict(case['frames'][0], mask=m, xoff=0, yoff=0)
+            if full:
+                f0['crop'] = None
+            iw.write_image(_build_frames(dict(case, frames=[f0])), io.BytesIO())
     frames = _build_frames(case)
     f = io.BytesIO()
     iw.write_image(frames, f)
@@ -938,6 +949,8 @@ def oracle(case, rec=None):
                 klass.append('flash-frame:origin-beyond-crop-size')
         if len(e.renders) > 1:
             klass.append('multi-frame')
+        if case.get('warm'):
+            klass.append('writer-reused')
         if any(_xforms(case)):
             klass.append('flip/rotate')
         if case.get('colours'):
